@@ -459,7 +459,9 @@ Definition xmin_of (coords : list (Z * Z)) : Z :=
   match coords with [] => 0 | p :: r => fold_left (fun a q => Z.min a (fst q)) r (fst p) end.
 
 (* one glyph after apply_variations: the varied glyph and its two horizontal phantom points *)
-Record varied := { v_glyph : glyph; v_pp1 : Z; v_pp2 : Z }.
+(* v_xmin: x_min of the glyph's bounding box after apply_variations (a glyph without variation
+   data keeps the bounding box of its header; composites are recomputed later from their children) *)
+Record varied := { v_glyph : glyph; v_pp1 : Z; v_pp2 : Z; v_xmin : Z }.
 
 Definition apply_comp (c : bool * Z * Z * Z) (d : qpair) : bool * Z * Z * Z :=
   let '(xy, gid, a1, a2) := c in
@@ -476,7 +478,8 @@ Definition apply_variations (m : mode) (g : glyph) (hdr_xmin aw lsb : Z) (axis_c
   od <- glyph_deltas g axis_count shared inst data ;;
   '(pp1, pp2) <- phantom_x m (match g with GEmpty => 0 | _ => hdr_xmin end) aw lsb ;;
   match od with
-  | None => Ok {| v_glyph := g; v_pp1 := pp1; v_pp2 := pp2 |}
+  | None => Ok {| v_glyph := g; v_pp1 := pp1; v_pp2 := pp2;
+                  v_xmin := match g with GEmpty => 0 | _ => hdr_xmin end |}
   | Some deltas =>
     let n := Z.to_nat (number_of_points g) in
     let ph := skipn n deltas in
@@ -487,7 +490,8 @@ Definition apply_variations (m : mode) (g : glyph) (hdr_xmin aw lsb : Z) (axis_c
               end in
     match ph with
     | d1 :: d2 :: _ =>
-      Ok {| v_glyph := g'; v_pp1 := add_round_i16 pp1 (fst d1); v_pp2 := add_round_i16 pp2 (fst d2) |}
+      Ok {| v_glyph := g'; v_pp1 := add_round_i16 pp1 (fst d1); v_pp2 := add_round_i16 pp2 (fst d2);
+            v_xmin := match g' with GSimple coords _ => xmin_of coords | GEmpty => 0 | GComposite _ => hdr_xmin end |}
     | _ => Panic
     end
   end.
@@ -603,15 +607,15 @@ Definition lsb_delta (h : hvar) (inst : list Z) (gid : Z) : outcome (option Q) :
 (* bounding box x_min after apply_gvar: simple glyphs from the varied points (0 when the glyph has
    no points); composite glyphs from their children (second pass of apply_gvar), modelled for
    un-scaled components whose children are simple or empty glyphs; empty glyphs have none (0) *)
-Definition simple_xmin (g : glyph) : Z :=
-  match g with GSimple coords _ => xmin_of coords | _ => 0 end.
+Definition simple_xmin (v : varied) : Z :=
+  match v_glyph v with GSimple _ _ => v_xmin v | _ => 0 end.
 
 Definition composite_xmin (all : list varied) (cs : list (bool * Z * Z * Z)) : outcome Z :=
   let one (c : bool * Z * Z * Z) : outcome Z :=
     let '(_, gid, a1, _) := c in
     match nth_error all (Z.to_nat gid) with
     | None => Err BadIndex
-    | Some v => Ok (simple_xmin (v_glyph v) + a1)
+    | Some v => Ok (simple_xmin v + a1)
     end in
   (fix go (l : list (bool * Z * Z * Z)) (acc : option Z) : outcome Z :=
      match l with
@@ -622,7 +626,7 @@ Definition composite_xmin (all : list varied) (cs : list (bool * Z * Z * Z)) : o
 Definition glyph_xmin (all : list varied) (v : varied) : outcome Z :=
   match v_glyph v with
   | GEmpty => Ok 0
-  | GSimple _ _ => Ok (simple_xmin (v_glyph v))
+  | GSimple _ _ => Ok (simple_xmin v)
   | GComposite cs => composite_xmin all cs
   end.
 
@@ -664,3 +668,91 @@ Definition output_tags (built : list Z) (source_tags : list Z) (glyf_font : bool
   ++ filter (fun t => negb (is_postponed t) && negb (is_var_table t) && negb (existsb (Z.eqb t) built)) source_tags
   ++ [TAG_HEAD]
   ++ (if glyf_font then [TAG_GLYF; TAG_LOCA] else []).
+
+(* ------------------------------------------------------------------------------------------ *)
+(* the glyf / hmtx part of instance(): apply_gvar over all glyphs, then create_hmtx_table *)
+
+Record gspec := { g_glyph : glyph; g_xmin : Z; g_aw : Z; g_lsb : Z; g_var : list Z }.
+
+Fixpoint apply_all (m : mode) (axis_count : Z) (shared : list (list Z)) (inst : list Z)
+                   (gs : list gspec) : outcome (list varied) :=
+  match gs with
+  | [] => Ok []
+  | g :: r =>
+    v <- apply_variations m (g_glyph g) (g_xmin g) (g_aw g) (g_lsb g) axis_count shared inst (g_var g) ;;
+    vs <- apply_all m axis_count shared inst r ;;
+    Ok (v :: vs)
+  end.
+
+Fixpoint metrics_from (m : mode) (hv : option hvar) (inst : list Z) (all : list varied)
+                      (gid : Z) (gs : list gspec) (vs : list varied) : outcome (list (Z * Z)) :=
+  match gs, vs with
+  | g :: gr, v :: vr =>
+    mt <- match hv with
+          | Some h =>
+            (* apply_hvar: advance first (its errors come before the bounding box is looked at) *)
+            d <- advance_delta h inst gid ;;
+            ol <- lsb_delta h inst gid ;;
+            match ol with
+            | Some dl => Ok (add_round_u16 (g_aw g) d, add_round_i16 (g_lsb g) dl)
+            | None => xmin <- glyph_xmin all v ;; l <- i16_op m (xmin - v_pp1 v) ;; Ok (add_round_u16 (g_aw g) d, l)
+            end
+          | None => xmin <- glyph_xmin all v ;; metric_from_phantom m xmin v
+          end ;;
+    rest <- metrics_from m hv inst all (gid + 1) gr vr ;;
+    Ok (mt :: rest)
+  | _, _ => Ok []
+  end.
+
+Definition instance_glyphs (m : mode) (axis_count : Z) (shared : list (list Z)) (inst : list Z)
+                           (gs : list gspec) (hv : option hvar) : outcome (list varied * list (Z * Z)) :=
+  vs <- apply_all m axis_count shared inst gs ;;
+  ms <- metrics_from m hv inst vs 0 gs vs ;;
+  Ok (vs, ms).
+
+(* process_mvar over the value records (tag, outer, inner) of an MVAR table whose records are
+   sorted by tag and distinct, so the binary search of MvarTable::lookup finds the record itself.
+   The 28 controlled values are kept in the order of process_mvar's arms; instance() passes
+   `&mut None` for vhea, so the vhea fields are never written. *)
+Definition field_index (f : mvar_field) : nat :=
+  match f with
+  | F_os2_version0_v0_s_typo_ascender => 0 | F_os2_version0_v0_s_typo_descender => 1
+  | F_os2_version0_v0_s_typo_line_gap => 2 | F_os2_version0_v0_us_win_ascent => 3
+  | F_os2_version0_v0_us_win_descent => 4
+  | F_vhea_vhea_ascender => 5 | F_vhea_vhea_descender => 6 | F_vhea_vhea_line_gap => 7
+  | F_hhea_caret_slope_rise => 8 | F_hhea_caret_slope_run => 9 | F_hhea_caret_offset => 10
+  | F_vhea_vhea_caret_slope_rise => 11 | F_vhea_vhea_caret_slope_run => 12 | F_vhea_vhea_caret_offset => 13
+  | F_os2_version2to4_version_sx_height => 14 | F_os2_version2to4_version_s_cap_height => 15
+  | F_os2_y_subscript_x_size => 16 | F_os2_y_subscript_y_size => 17
+  | F_os2_y_subscript_x_offset => 18 | F_os2_y_subscript_y_offset => 19
+  | F_os2_y_superscript_x_size => 20 | F_os2_y_superscript_y_size => 21
+  | F_os2_y_superscript_x_offset => 22 | F_os2_y_superscript_y_offset => 23
+  | F_os2_y_strikeout_size => 24 | F_os2_y_strikeout_position => 25
+  | F_post_header_underline_thickness => 26 | F_post_header_underline_position => 27
+  end%nat.
+
+Definition is_vhea_field (f : mvar_field) : bool :=
+  match f with
+  | F_vhea_vhea_ascender | F_vhea_vhea_descender | F_vhea_vhea_line_gap
+  | F_vhea_vhea_caret_slope_rise | F_vhea_vhea_caret_slope_run | F_vhea_vhea_caret_offset => true
+  | _ => false
+  end.
+
+Fixpoint process_mvar (st : ivstore) (inst : list Z) (vhea_passed : bool) (recs : list (Z * Z * Z))
+                      (vals : list Z) : list Z :=
+  match recs with
+  | [] => vals
+  | (tag, outer, inner) :: r =>
+    let vals' :=
+      match adjustment st outer inner inst with
+      | Ok delta =>
+        match mvar_target tag with
+        | Some (tgt, src, k) =>
+          if is_vhea_field tgt && negb vhea_passed then vals
+          else set_nth vals (field_index tgt) (mvar_apply k (nth (field_index src) vals 0) delta)
+        | None => vals
+        end
+      | _ => vals
+      end in
+    process_mvar st inst vhea_passed r vals'
+  end.
